@@ -22,10 +22,13 @@ def run(prop, tier):
                 jobs.append(dict(src=SRC, atomic=a, args=["excl", "-p", 2, "--", kind, 3, 2]))
                 jobs.append(dict(src=SRC, atomic=a, args=["excl", "-p", 8, "--", kind, 2, 1]))
     acc = mcsched.run_jobs(prop, tier, jobs)
+    extra = {}
+    if tier == "thorough" and not acc.viols:
+        extra = mcsched.conformance(acc, [j for j in jobs if j["args"][0] not in ("values", "barrier")])
     cov = mcsched.coverage(acc, "stateless DFS over all interleavings with <= %d preemptions of 2-3 real threads x (lock|trylock; critical section with a visible step; unlock) "
                                 "on the real PMutex/PSpinLock for each atomic model; oracles: shadow holder count, plain counter watched by the happens-before monitor, "
                                 "deadlock/livelock, blocked-inside-trylock; non-trivial = executions in which an acquisition had to wait" % p)
-    return common.finish(prop, tier, "model_checking", acc, cov, mcsched.ASSUME, t0)
+    return common.finish(prop, tier, "model_checking", acc, cov, mcsched.ASSUME, t0, extra=extra)
 
 
 replay = mcsched.replay
